@@ -11,7 +11,7 @@ literals are skipped, `#[cfg(test)] mod tests` tails are excluded), and for each
      'killed by the existing tests' (out of scope: the checks target what the tests cannot see).
 Results are appended as JSON lines to <out>/results.jsonl; `report` prints the summary.
 
-Usage: mutation_sweep.py gen <out>              # writes <out>/mutants.json
+Usage: mutation_sweep.py gen <out> [--cfg]      # writes <out>/mutants.json (--cfg: mutations of #[cfg(feature)] attributes instead)
        mutation_sweep.py run <out> [--workers N] [--tests] [--only FILE_SUBSTR] [--limit N]
        mutation_sweep.py report <out>
 """
@@ -217,11 +217,39 @@ def gen_file(rel):
     return out
 
 
-def cmd_gen(out):
+CFG_LINE = re.compile(r'^(\s*)#\[cfg\((not\()?feature = "([a-z-]+)"\)?\)\]\s*$')
+FEATURES = ["tracing", "metrics", "test-utils", "deadlock-detection"]
+
+
+def gen_cfg(rel):
+    """Mutations of `#[cfg(feature = ..)]` attribute lines: delete, negate, name another feature."""
+    src = open(os.path.join(REPO, rel)).read()
+    out = []
+    off = 0
+    lines = src.splitlines(True)
+    for i, ln in enumerate(lines):
+        m = CFG_LINE.match(ln.rstrip("\n"))
+        if m:
+            ind, neg, feat = m.group(1), bool(m.group(2)), m.group(3)
+            nxt = lines[i + 1].strip() if i + 1 < len(lines) else ""
+
+            def add(new, op):
+                out.append({"file": rel, "start": off, "end": off + len(ln), "new": new, "op": op, "line": i + 1, "in_log": False,
+                            "text": ("%s | %s" % (ln.strip(), nxt))[:160], "old": ln})
+            add("", "cfg-delete")
+            add('%s#[cfg(%sfeature = "%s"%s)]\n' % (ind, "" if neg else "not(", feat, "" if neg else ")"), "cfg-negate")
+            for f2 in FEATURES:
+                if f2 != feat:
+                    add('%s#[cfg(%sfeature = "%s"%s)]\n' % (ind, "not(" if neg else "", f2, ")" if neg else ""), "cfg-feature:%s->%s" % (feat, f2))
+        off += len(ln)
+    return out
+
+
+def cmd_gen(out, cfg=False):
     os.makedirs(out, exist_ok=True)
     ms = []
     for rel in FILES:
-        ms += gen_file(rel)
+        ms += gen_cfg(rel) if cfg else gen_file(rel)
     for i, m in enumerate(ms):
         m["id"] = i
     json.dump(ms, open(os.path.join(out, "mutants.json"), "w"), indent=0)
@@ -379,7 +407,7 @@ def cmd_report(out):
 if __name__ == "__main__":
     a = sys.argv[1:]
     if a[0] == "gen":
-        cmd_gen(a[1])
+        cmd_gen(a[1], "--cfg" in a)
     elif a[0] == "run":
         w = int(a[a.index("--workers") + 1]) if "--workers" in a else 4
         only = a[a.index("--only") + 1] if "--only" in a else None
